@@ -125,6 +125,17 @@ CHECKS = {
             "with the effect it has on a fresh container.",
             "One known finding (release after a propagating error) is listed in known-findings.json.",
             "DESIGN.md#c12"),
+    "C15": ("fault_enumeration",
+            "exhaustive enumeration of every depth / tick count / cancellation position around every configured limit, judged against reference counts measured on unlimited runs",
+            "Depth: 12 recursion shapes (direct, mutual, lambda, comprehension, sorted key=, map, filter, partial, struct field, "
+            "loaded frozen function, native re-entry) x limits {1..8, 50 default, 51} x EVERY depth near the limit: the run "
+            "succeeds with the same transcript iff the depth read by a native probe at the leaf (unlimited run) is within the "
+            "limit, else ErrorKind::StackOverflow; stack empty and evaluator reusable afterwards. Ticks: 10 loop/call structures x "
+            "every parameter (tick count measured and re-measured) x budgets x EVERY tick count in a +-1100 band (thorough) around "
+            "each budget: T <= B succeeds identically, T > B fails with the tick error, transcript a prefix, overrun <= 1000. "
+            "Cancellation raised at EVERY iteration index of a 2500-iteration loop: always ends Cancelled within 1000 iterations.",
+            "Check interval 1000 (INFREQUENT_INSTRUCTION_CHECK_PERIOD); the leaf is the deepest point of each shape.",
+            "DESIGN.md#c15"),
     "C16": ("exploration",
             "exhaustive type-term x value-catalogue matrix on six check paths, frozen and unfrozen, against a denotes(T, v) reference model",
             "All type terms to depth 1 (quick) / 2 (thorough, inner positions from 8 representatives) over Any, Never, None, "
